@@ -28,6 +28,7 @@ class DhtWorld:
         self.requests_seen = {}     # rpc_id -> (method, key, requester addr, requester node id)
         self.requests_by_node = {}  # src addr -> count of find requests sent (for the termination bound)
         self.replied_from = {}      # receiver addr -> set of addrs a *response* was delivered from
+        self.pings_by_node = {}     # src addr -> pings sent
         self.replied_ids = {}       # receiver addr -> {source ip: set of node ids responses from that host carried}
         self.endless = {}           # hostile addr -> counter (behaviours that never run out of fresh material)
         self.monitor = monitor
@@ -83,6 +84,14 @@ class DhtWorld:
                 if len(self.requests_seen) > 4096:
                     for k in list(self.requests_seen)[:1024]:
                         del self.requests_seen[k]
+            if msg is not None and msg['kind'] == 'request' and msg['method'] == b'ping':
+                self.pings_by_node[src] = self.pings_by_node.get(src, 0) + 1
+            if self.hostile.get(src) == 'reply_port_all' and msg is not None and msg['kind'] == 'response':
+                # a host whose replies ALWAYS leave from another port than the one it listens on (every method, pings too)
+                self.run.faults['hostile_reply_port_all'] += 1
+                self.net.in_flight += 1
+                self.loop.call_later(0.01, self.net._deliver, (src[0], 5555), dst, data)
+                return None
             if src in self.hostile and msg is not None and msg['kind'] == 'response':
                 req = self.requests_seen.get(msg['rpc_id'])
                 if req is not None and self._hrng.random() < self.hostile_rate:
@@ -317,7 +326,7 @@ HOSTILE_BEHAVIOURS = ['silent', 'garbage', 'truncated', 'wrong_types', 'short_tr
                       'own_id', 'own_addr', 'low_ports', 'closer_fabricated', 'append_far_fabricated', 'append_far_fabricated', 'short_ids', 'error', 'error_bad_fields',
                       'wrong_rpc_id', 'claims_requester_id', 'other_address', 'other_port', 'no_token', 'bogus_p',
                       'bad_compact', 'dup_compact', 'many_pages', 'requester_as_peer', 'misc',
-                      'alias_honest', 'key_as_id', 'endless_closer', 'endless_pages']
+                      'alias_honest', 'key_as_id', 'endless_closer', 'endless_pages', 'reply_port_all']
 
 
 def _shape(data):
